@@ -40,6 +40,16 @@ Theorem forward_unchanged : forall st req oracle tg ch body,
 Proof. exact forward_unchanged_proof. Qed.
 Print Assumptions forward_unchanged.
 
+(* History-level corollary: in a history of Forward requests through one responder, the bytes forwarded
+   for each request are that request's own payload — a function of that request only, whatever came
+   before or comes after (the responder keeps no state: model_history = map model). *)
+Theorem forward_unchanged_history : forall st req oracle rs,
+  Forall fwd_ok rs ->
+  Forall2 (fun r o => fst o = true /\ forall sv d, In (EForward sv d) (snd o) -> d = fwd_payload r)
+          rs (model_history all_fixed st req oracle s_BungeeCord (map fwd_request rs)).
+Proof. exact forward_unchanged_history_proof. Qed.
+Print Assumptions forward_unchanged_history.
+
 (* "each target server receives a forwarded payload once" (dispatch layer): with distinct server names
    no server is addressed twice by one Forward, whatever the arguments; and ALL skips the requester's server. *)
 Theorem one_per_server : forall st req oracle a,
